@@ -266,10 +266,19 @@ func genHistory(w *World, seed uint64, cfg GenCfg, ops io.Writer, obs io.Writer)
 		wildSigner := map[int]bool{}
 		for j := 0; j < ntx; j++ {
 			tx := g.GenTx(s, h)
-			if tx.Signer == -1 && cfg.Mode != "calm" && len(tx.Msgs) == 1 && g.R.P(8) {
+			tailPct := 8
+			if len(tx.Msgs) == 1 && (tx.Msgs[0].Kind == "PARAMS" || tx.Msgs[0].Kind == "RMPENDING") {
+				tailPct = 35 // rarer messages: exercise their rolled-back execution often enough to matter
+			}
+			if tx.Signer == -1 && cfg.Mode != "calm" && len(tx.Msgs) == 1 && g.R.P(tailPct) {
 				// a transaction whose last message fails (power below the minimum) after the earlier ones ran: everything
 				// the earlier messages did has to vanish with it
+				orig := tx.Msgs[0]
 				tx.Msgs = append(tx.Msgs, Msg{Kind: "SETPOWER", Args: []string{itoa(g.R.N(NOPS)), "999999", "1"}})
+				if g.R.P(60) {
+					// … and the admin sends the part that was fine again, on its own
+					g.queued = append(g.queued, Tx{Signer: -1, Msgs: []Msg{orig}})
+				}
 			}
 			if wildSigner[tx.Signer] {
 				continue // a signer whose earlier tx has an unmodelled outcome signs nothing more in this block
